@@ -424,3 +424,7 @@ UNITS.append(Unit("C17", "jsonargparse._core:ArgumentParser.default_env", de_set
 
 from contracts.share import carried as _carried  # noqa: E402
 UNITS += _carried("C17")
+
+# a --config with sections for several subcommands and no name is parsed inside not_single_subcommand: it must not select (and keep only) the first one
+from contracts.share import shared as _c17_shared  # noqa: E402
+UNITS += [u for u in _c17_shared("C17", "contracts.c04", "ActionConfigFile.apply_config") if not u.label]
